@@ -342,7 +342,20 @@ def run_expval_sum(case, r, sm):
     return r
 
 
+# fixed deep case: the projection of a *bra* doubles precursor onto the
+# lower class first picks up the perturbed ground state at third order
+# (ADC(4)-level coupling block phh,h); run by the last shard only (~1.5 min)
+DEEP = [
+    {"variant": "ip", "sp1": "phh", "sp2": "h", "order": 3, "kind": "isr",
+     "subtract_gs": True, "i1": ["i", "j", "a"], "i2": ["k"], "size": [3, 2],
+     "canonical": True, "adc_order": 0, "mvp_adc": 0, "mvp_order": None,
+     "mseed": 5},
+]
+
+
 def run_shard(col, shard, nshards, seed, tier):
+    if nshards - 1 - shard in range(len(DEEP)):
+        col.run(DEEP[nshards - 1 - shard], run_case)
     drive(strategy(tier), run_case, N_EXAMPLES[tier], seed * 1000 + shard,
           col)
 
